@@ -324,13 +324,13 @@ fn coq_request(q: &Request) -> String {
     )
 }
 
-const PATTERN_BITS: u32 = (1 << 18) | (1 << 19) | (1 << 20) | (1 << 21) | (1 << 24) | (1 << 28);
-
 fn coq_parsed(res: &Result<NetworkFilter, String>) -> String {
     match res {
         Ok(f) => format!(
-            "(POk (mkParsed {} {} {} {} {}))",
-            cn(f.mask.bits() & !PATTERN_BITS),
+            // the model leaves the pattern-kind bits out; they are stripped with the model's own
+            // PATTERN_BITS (built from the generated mask constants)
+            "(POk (mkParsed (N.ldiff {} PATTERN_BITS) {} {} {} {}))",
+            cn(f.mask.bits()),
             coq_olist(&f.opt_domains),
             coq_olist(&f.opt_not_domains),
             coq_on(&f.opt_domains_union),
